@@ -126,7 +126,7 @@ func cmdVerify(args []string) {
 	}
 	var fns []*ssa.Function
 	for fn, c := range P.contracts {
-		if c.Trusted != "" {
+		if c.Trusted != "" || (c.Inline && len(c.Ensures) == 0) {
 			continue
 		}
 		if *fname == "" || strings.Contains(shortFuncName(fn), *fname) {
